@@ -160,7 +160,7 @@ def run_case(g, provider, grepo, builtin, history):
 
 
 # ---- glob imports over files of two languages; the order of the directory listing is an environment answer -----------
-GLOB_FILES = ["e1.ent", "t2.type", "e3.ent", "t4.type"]
+GLOB_FILES = ["e1.ent", "t2.type", "e3.ent", "t4.type", "v5.ver"]  # *.ver: a registered language whose root rule yields a plain value
 
 
 def run_glob_case(order, grepo):
@@ -177,7 +177,7 @@ def run_glob_case(order, grepo):
     os.makedirs(os.path.join(d, "lib"), exist_ok=True)
     for fn in GLOB_FILES:
         with open(os.path.join(d, "lib", fn), "w") as f:
-            f.write(("ent %s" if fn.endswith(".ent") else "type %s") % fn[:2])
+            f.write("5" if fn.endswith(".ver") else ("ent %s" if fn.endswith(".ent") else "type %s") % fn[:2])
     with open(os.path.join(d, "main.ent"), "w") as f:
         f.write('import "lib/*" ent m')
     types_mm = metamodel_from_str("Model: types*=Ty; Ty: 'type' name=ID;")
@@ -192,13 +192,14 @@ def run_glob_case(order, grepo):
         return [os.path.join(os.path.dirname(got[0]), fn) for fn in listing]
     clear_language_registrations()
     register_language("c17types", pattern="*.type", metamodel=types_mm)
+    register_language("c17ver", pattern="*.ver", metamodel=metamodel_from_str("Version: INT;"))
     obs = {"directory_listing_order": listing, "global_repository": grepo}
     bad = []
     S.glob.glob = fake_glob
     try:
         m = ent_mm.model_from_file(os.path.join(d, "main.ent"))
-        loaded = {os.path.basename(x._tx_filename): x for x in m._tx_model_repository.all_models if x is not m}
-        if sorted(loaded) != sorted(GLOB_FILES):
+        loaded = {os.path.basename(x._tx_filename): x for x in m._tx_model_repository.all_models if x is not m and hasattr(x, "_tx_filename")}
+        if sorted(loaded) != sorted(x for x in GLOB_FILES if not x.endswith(".ver")):  # the plain value 5 is no model object and is not kept
             bad.append(("files loaded", sorted(loaded)))
         for fn, x in loaded.items():
             want = types_mm if fn.endswith(".type") else ent_mm
